@@ -1528,10 +1528,19 @@ func runHistCase(o *Out, ci int, hc *histCase, nops int, distinct map[string]boo
 			statesBefore := plannedStates(sol)
 			var out any
 			var e error
+			rec.reset()
 			if doPanic(opDesc, func() {
 				out, e = check.SolutionCheck(sol, check.Options{Verbosity: verb, Duration: 5 * time.Second})
 			}) {
 				return
+			}
+			// did the check's probing meet a REJECTED un-plan (the precondition of the listed findings E16 / E34: the
+			// units-unit UnPlan goes on after a rejected member)? A check that alters the solution without one is something else.
+			rejected := "no-rejected-unplan"
+			for _, ev := range rec.events {
+				if ev.Kind == "unplan" && !ev.OK {
+					rejected = "after-rejected-unplan"
+				}
 			}
 			_ = out
 			if e != nil {
@@ -1544,7 +1553,7 @@ func runHistCase(o *Out, ci int, hc *histCase, nops int, distinct map[string]boo
 				// finding — a probed GROUP left half planned, E16 — from anything else the check might alter); judged
 				// even when the books were inconsistent before: the check must not alter the solution whatever its state
 				culprit := plannedStateDiff(statesBefore, plannedStates(sol))
-				o.Violate(Violation{Property: "C18", Clause: "check-changed-solution", Sig: "C18|check-changed-solution|" + culprit + "|" + changedParts(before, after) + "|" + verb,
+				o.Violate(Violation{Property: "C18", Clause: "check-changed-solution", Sig: "C18|check-changed-solution|" + culprit + "|" + changedParts(before, after) + "|" + verb + "|" + rejected,
 					Detail: diffSnap(before, after), Replay: hc})
 			}
 			// what the check reports is judged on solutions whose books are in order (a solution the check itself has
@@ -1763,7 +1772,7 @@ func combos(n, m int) [][]int {
 }
 
 // bestMoveOracle: BestMove vs the minimum over NewMoveStops on every enumerated placement (C10).
-func bestMoveOracle(o *Out, hc *histCase, sol nextroute.Solution, su nextroute.SolutionPlanStopsUnit, mv nextroute.SolutionMove, role string) {
+func bestMoveOracle(o *Out, hc any, sol nextroute.Solution, su nextroute.SolutionPlanStopsUnit, mv nextroute.SolutionMove, role string) {
 	orders := allowedOrders(su)
 	best := math.Inf(1)
 	any := false
